@@ -20,11 +20,14 @@ Space (enumerated completely, simplest first): a parametric skool/ref/option gra
                  with @remote back to main
     main.ref     AddressAnchor, LinkOperands, LinkInternalOperands(+MinDistance),
                  AsmSinglePage, [Paths] nesting for code/other code/index/maps/single
-                 page/CSS+JS/images+audio/custom page, [Page:*], box page types,
-                 [MemoryMap:*] parameters, [Resources], Logo/LogoImage, JavaScript
+                 page/CSS+JS/images+audio/custom page, [Paths] naming relation (every
+                 top-level name of the tree a proper string prefix of the next one, in
+                 both orders, at the root and below a common parent directory), [Page:*],
+                 box page types, [MemoryMap:*] parameters, [Resources], Logo/LogoImage,
+                 JavaScript
     options      -1 -a -C -D/-H -l/-u -o -O -T -j and every subset of -w dimoP
 
-explored as core.deviations from the default configuration (quick: d <= 2 over all 44
+explored as core.deviations from the default configuration (quick: d <= 2 over all 45
 dimensions; thorough: additionally d <= 3 over the 21 link-forming core dimensions).
 The -w letters form one more dimension whose 31 non-default values are all run (quick:
 on the default configuration; thorough: on every configuration with <= 1 deviation),
@@ -65,6 +68,7 @@ DEFAULT = dict(
     # ref file
     anchor='dec', linkops='default', lio='0', single=0, codepath='asm', codefiles='default', opaths='default',
     indexpath='default', mappath='default', asmpage='default', respath='default', assetpath='default', pagepath='default',
+    dirnames='distinct',
     pagejs=0, gamejs=0, css='one', resources=0, logo='none', mapdesc=0, maplabel=0, mapwrite='default', mapincl='includes',
     box='para', boxlink='blank', refpages=0,
     # options
@@ -94,6 +98,7 @@ ALTS = dict(
     respath=['deep'],
     assetpath=['deep', 'split'],
     pagepath=['deep'],
+    dirnames=['chain', 'chain_rev', 'nested', 'nested_rev'],
     pagejs=[1],
     gamejs=[1],
     css=['two'],
@@ -199,6 +204,48 @@ def anchor_of(cfg, address):
     return '%04X' % address if cfg['base'] == '-H' else str(address)
 
 
+# The top-level names of the output tree, one slot each (dimension 'dirnames').  With the default value the names
+# are the documented defaults, no one of which is a string prefix of another.  With 'chain' slot k is named
+# CHAIN[k] = 'n' + the first k letters of the alphabet, so the name of every slot is a proper string prefix of the
+# name of every later slot although no directory contains another; 'chain_rev' assigns the names in the opposite
+# order, so that between them every ordered pair (directory of the linking page, path of the link target) occurs
+# with the first a string prefix of the second.  'nested'/'nested_rev' are the same two assignments below the
+# common parent directory 'r' (prefix-sharing siblings at depth 2; the parent is a real ancestor of all of them).
+SLOTS = (
+    ('code', {'CodePath': '{}'}),
+    ('maps', {'MemoryMap': '{}/all.html', 'RoutinesMap': '{}/routines.html', 'DataMap': '{}/data.html',
+              'MessagesMap': '{}/messages.html', 'UnusedMap': '{}/unused.html', 'Custom': '{}/Custom.html'}),
+    ('buffers', {'GameStatusBuffer': '{}/gbuffer.html'}),
+    ('other', {'other-CodePath': '{}', 'other-Index': '{}/other.html', 'other-AsmSinglePage': '{}/asm.html'}),
+    ('aux2', {'aux2-CodePath': '{}', 'aux2-Index': '{}/aux2.html', 'aux2-AsmSinglePage': '{}/asm.html'}),
+    ('box', {'Box': '{}/box.html'}),
+    ('page', {'P1': '{}.html'}),                          # a file in the root directory
+    ('reference', {'Bugs': '{}/bugs.html', 'Facts': '{}/facts.html', 'Changelog': '{}/changelog.html'}),
+    ('images', {'ImagePath': '{}'}),
+    ('audio', {'AudioPath': '{}'}),
+    ('single', {'AsmSinglePage': '{}.html'}),             # a file in the root directory
+    ('index', {'GameIndex': '{}.html'}),                  # a file in the root directory
+    ('resources', {'StyleSheetPath': '{}', 'JavaScriptPath': '{}', 'FontPath': '{}'}),
+)
+CHAIN = ['n' + 'abcdefghijklmnopqrstuvwxyz'[:k] for k in range(len(SLOTS))]
+
+
+def _named_paths(cfg):
+    """[Paths] parameters that the dimension 'dirnames' sets (empty for the default value)."""
+    kind = cfg['dirnames']
+    if kind == 'distinct':
+        return {}
+    names = CHAIN[::-1] if kind.endswith('_rev') else CHAIN
+    parent = 'r/' if kind.startswith('nested') else ''
+    over = {}
+    for (slot, params), name in zip(SLOTS, names):
+        if slot == 'aux2' and cfg['other'] != 'two':
+            continue
+        for k, fmt in params.items():
+            over[k] = parent + fmt.format(name)
+    return over
+
+
 def _paths(cfg):
     """Reference: [Paths] in force for this configuration (defaults from ref-files.rst)."""
     p = dict(AudioPath='audio', CodePath='asm', FontPath='.', ImagePath='images', JavaScriptPath='.', StyleSheetPath='.',
@@ -213,7 +260,8 @@ def _paths(cfg):
     p['aux2-Index'] = 'aux2/aux2.html'
     p['aux2-CodePath'] = 'aux2'
     p['aux2-AsmSinglePage'] = 'aux2/asm.html'
-    over = {}
+    # the naming relation first; the dimensions that move one kind of path each are applied on top of it
+    over = _named_paths(cfg)
     if cfg['codepath'] == 'deep':
         over['CodePath'] = 'code/deep/asm'
     elif cfg['codepath'] == 'root':
@@ -895,6 +943,16 @@ def check_tree(case, tree, w=W_FULL, full=None, counters=None):
         if counters is not None:
             counters[name] += 1
 
+    # vacuity guard of the dimension 'dirnames', taken from the model alone (so it does not depend on what the
+    # implementation wrote): ordered pairs of documented pages (p, q) where the directory of p is a string prefix of
+    # the path of q without being one of its ancestors
+    for p in sorted(case.html):
+        here = posixpath.dirname(p)
+        if here and case.html[p][1] in w:
+            for q in sorted(case.html):
+                if q.startswith(here) and not q.startswith(here + '/'):
+                    count('prefix_sibling_pages:{}>{}'.format(case.html[p][0], case.html[q][0]))
+
     if tree.rc:
         bad('tool_failed', str(tree.exc).split(':')[0], 'skool2html failed on documented input: {} {}'.format(tree.exc, tree.err.strip()[-300:]),
             box=cfg['box'], boxlink=cfg['boxlink'], error=str(tree.exc)[:120])
@@ -987,6 +1045,11 @@ def check_tree(case, tree, w=W_FULL, full=None, counters=None):
             tcat = case.html.get(target, (None,))[0]
             is_page = target.endswith(('.html', '.htm'))
             if target in disk and target in logged:
+                here = posixpath.dirname(p)
+                if here and target.startswith(here) and not target.startswith(here + '/'):
+                    # the directory of the linking page is a string prefix of the target path without being
+                    # one of its ancestors
+                    count('prefix_sibling:{}>{}'.format(pcat, tcat if is_page else what))
                 ids_here = page_ids.get(target)
                 if has_frag:
                     if ids_here is None:
@@ -1103,6 +1166,12 @@ REQUIRED = [
     'page>asm', 'page>asm#', 'page>map#', 'page>box#', 'page>img.src', 'page>audio.src', 'page>script.src',
     'box>self#', 'box>asm', 'box>box#', 'box>img.src',
     'oindex>asm1#', 'oindex>oasm1#', 'page>oasm#', 'map>oasm#', 'asm1>oindex#', 'index>img.src', 'index>script.src', 'oasm>script.src',
+    # documented page pairs whose first member's directory is a string prefix, but not an ancestor, of the second's path
+    # (the counters prefix_sibling:* in the evidence are the references between such pairs that were found to resolve)
+    'prefix_sibling_pages:asm>map', 'prefix_sibling_pages:asm>oasm', 'prefix_sibling_pages:asm>page', 'prefix_sibling_pages:asm>box',
+    'prefix_sibling_pages:asm>index', 'prefix_sibling_pages:asm>oindex', 'prefix_sibling_pages:map>asm', 'prefix_sibling_pages:map>index',
+    'prefix_sibling_pages:oasm>asm', 'prefix_sibling_pages:oasm>oasm', 'prefix_sibling_pages:oasm>map', 'prefix_sibling_pages:oindex>asm',
+    'prefix_sibling_pages:box>asm', 'prefix_sibling_pages:map>asm1', 'prefix_sibling_pages:oasm1>asm1',
 ]
 
 
@@ -1115,8 +1184,13 @@ def run(tier, seed):
         rule='cases = deviations from the default (skool shape x ref file x options) configuration: <= {} over all {} dimensions '
              '({} alternative values){}; -w is one more dimension: all 31 proper subsets of dimoP for every configuration with <= {} other '
              'deviations, each judged against the complete tree of the same configuration; every case = one skool2html.main tree (main + '
-             'secondary disassemblies, 14-25 pages, 150-250 references) walked completely; non-trivial = any deviation from the default; '
-             'states = distinct (file set, per-page reference set) outcomes'.format(d_all, len(DEFAULT), nalt, core_txt, d_w),
+             'secondary disassemblies, 14-25 pages, 150-250 references) walked completely; the dimension dirnames names the {} top-level '
+             'directories/root files of the tree ([Paths]: {}) so that each name is a proper string prefix of the next one without any '
+             'directory containing another, in both orders (chain, chain_rev: every ordered pair (directory of the linking page, target '
+             'path) occurs with the first a string prefix of the second) and the same below a common parent directory (nested, '
+             'nested_rev); non-trivial = any deviation from the default; '
+             'states = distinct (file set, per-page reference set) outcomes'.format(d_all, len(DEFAULT), nalt, core_txt, d_w, len(SLOTS),
+                                                                                  ','.join(s for s, _ in SLOTS)),
         exhaustive=True,
         bound='deviations d <= {} over all dimensions{}; all 31 -w subsets for every configuration with <= {} other deviations'.format(
             d_all, core_txt, d_w),
